@@ -376,7 +376,6 @@ func pathTo(parent map[*ssa.Function]*ssa.Function, f *ssa.Function) string {
 
 var _ = callgraph.CalleesOf
 
-
 // PathCount enumerates the acyclic entry→non-rejecting-return paths of fn and, for each, counts the call sites matching
 // pred and records the branch conditions taken. fn must be loop-free on those paths (cycles are cut).
 type pathInfo struct {
